@@ -49,6 +49,8 @@ pub struct Params {
     /// ErrorKind::Interrupted once. The session may end because of it; what was read must stay a prefix of what was
     /// written (only the data-integrity keys are judged)
     pub interrupt: Option<(bool, usize, bool)>,
+    /// with `interrupt` on a write call: the call accepts 0 bytes (Ok(0)) instead of returning Interrupted
+    pub zero_instead: bool,
 }
 
 fn vl(v: &Arc<Mutex<Vec<(String, String)>>>, k: &str, d: String) {
@@ -244,7 +246,13 @@ pub fn make(p: Params) -> ScenarioFn {
             }
             if let Some((s2c, k, flush)) = p.interrupt {
                 let pipe = if s2c { &pair.s2c } else { &pair.c2s };
-                if flush { pipe.set_flush_interrupt_call(k) } else { pipe.set_write_interrupt_call(k) }
+                if flush {
+                    pipe.set_flush_interrupt_call(k)
+                } else if p.zero_instead {
+                    pipe.set_write_zero_call(k)
+                } else {
+                    pipe.set_write_interrupt_call(k)
+                }
             }
             let mut writers = vec![];
             let mut readers = vec![];
@@ -402,7 +410,7 @@ pub fn banner_json(p: &BannerParams) -> serde_json::Value {
 }
 
 pub fn params_json(p: &Params) -> serde_json::Value {
-    json!({"streams": p.streams, "scheme": p.scheme_name, "capacity": if p.capacity == usize::MAX { -1 } else { p.capacity as i64 }, "latency_s": p.latency_s, "interrupted_call": p.interrupt.map(|(s2c, k, fl)| format!("{} {} #{k}", if s2c { "s2c" } else { "c2s" }, if fl { "flush" } else { "write" })),
+    json!({"streams": p.streams, "scheme": p.scheme_name, "capacity": if p.capacity == usize::MAX { -1 } else { p.capacity as i64 }, "latency_s": p.latency_s, "interrupted_call": p.interrupt.map(|(s2c, k, fl)| format!("{} {} #{k}", if s2c { "s2c" } else { "c2s" }, if fl { "flush" } else if p.zero_instead { "write(Ok(0))" } else { "write" })),
         "read_menu": p.read_menu, "write_menu": p.write_menu,
         "flows": p.flows.iter().map(|f| json!({"s": f.stream + 1, "up": f.up, "path": format!("{:?}", f.path), "chunks": f.chunks, "rbuf": f.read_buf, "read_calls": f.read_pattern})).collect::<Vec<_>>()})
 }
@@ -461,6 +469,7 @@ pub fn all_params(tier: Tier) -> Vec<(Params, usize)> {
                             write_menu: false,
                             latency_s: 0,
                             interrupt: None,
+                            zero_instead: false,
                         },
                         0,
                     ));
@@ -480,6 +489,7 @@ pub fn all_params(tier: Tier) -> Vec<(Params, usize)> {
                                     write_menu: false,
                                     latency_s: 0,
                                     interrupt: None,
+                                    zero_instead: false,
                                 },
                                 0,
                             ));
@@ -504,7 +514,7 @@ pub fn all_params(tier: Tier) -> Vec<(Params, usize)> {
         for seq in aseqs {
             for up in [true, false] {
                 v.push((
-                    Params { streams: 1, flows: vec![Flow { stream: 0, up, path: Path::Direct, chunks: seq.clone(), read_buf: 8192, read_pattern: vec![] }], scheme: STOP0, scheme_name: "stop0", capacity: usize::MAX, read_menu: false, write_menu: false, latency_s: 0, interrupt: None },
+                    Params { streams: 1, flows: vec![Flow { stream: 0, up, path: Path::Direct, chunks: seq.clone(), read_buf: 8192, read_pattern: vec![] }], scheme: STOP0, scheme_name: "stop0", capacity: usize::MAX, read_menu: false, write_menu: false, latency_s: 0, interrupt: None, zero_instead: false },
                     0,
                 ));
             }
@@ -519,13 +529,13 @@ pub fn all_params(tier: Tier) -> Vec<(Params, usize)> {
             continue; // quick: the tiny and branchy schemes take every shaper branch
         }
         // two streams upstream, direct path, short reads straddling headers
-        v.push((Params { streams: 2, flows: vec![f(0, true, Path::Direct, &[1, 7], 7), f(1, true, Path::Direct, &[8, 30], 8192)], scheme, scheme_name, capacity: usize::MAX, read_menu: true, write_menu: false, latency_s: 0, interrupt: None }, b));
+        v.push((Params { streams: 2, flows: vec![f(0, true, Path::Direct, &[1, 7], 7), f(1, true, Path::Direct, &[8, 30], 8192)], scheme, scheme_name, capacity: usize::MAX, read_menu: true, write_menu: false, latency_s: 0, interrupt: None, zero_instead: false }, b));
         // two streams downstream through the forwarding task
-        v.push((Params { streams: 2, flows: vec![f(0, false, Path::Forward, &[1, 7], 7), f(1, false, Path::Forward, &[8, 30], 9)], scheme, scheme_name, capacity: usize::MAX, read_menu: true, write_menu: false, latency_s: 0, interrupt: None }, b));
+        v.push((Params { streams: 2, flows: vec![f(0, false, Path::Forward, &[1, 7], 7), f(1, false, Path::Forward, &[8, 30], 9)], scheme, scheme_name, capacity: usize::MAX, read_menu: true, write_menu: false, latency_s: 0, interrupt: None, zero_instead: false }, b));
         // both directions at once on one stream, short/pending writes
-        v.push((Params { streams: 1, flows: vec![f(0, true, Path::Direct, &[9, 0, 3], 4), f(0, false, Path::Forward, &[5, 12], 8192)], scheme, scheme_name, capacity: usize::MAX, read_menu: false, write_menu: true, latency_s: 0, interrupt: None }, b.min(2)));
+        v.push((Params { streams: 1, flows: vec![f(0, true, Path::Direct, &[9, 0, 3], 4), f(0, false, Path::Forward, &[5, 12], 8192)], scheme, scheme_name, capacity: usize::MAX, read_menu: false, write_menu: true, latency_s: 0, interrupt: None, zero_instead: false }, b.min(2)));
         // back-pressure: 3000-byte chunks through a 1000-byte pipe, both directions
-        v.push((Params { streams: 1, flows: vec![f(0, true, Path::Direct, &[3000], 8192), f(0, false, Path::Direct, &[2500], 700)], scheme, scheme_name, capacity: 1000, read_menu: false, write_menu: false, latency_s: 0, interrupt: None }, b.min(2)));
+        v.push((Params { streams: 1, flows: vec![f(0, true, Path::Direct, &[3000], 8192), f(0, false, Path::Direct, &[2500], 700)], scheme, scheme_name, capacity: 1000, read_menu: false, write_menu: false, latency_s: 0, interrupt: None, zero_instead: false }, b.min(2)));
     }
     // slow links: 16 bytes in flight, delivered after 16 / 31 / 61 s — every write is cut in mid-frame by long stalls
     for (scheme, scheme_name) in [(STOP0, "stop0"), (TINY, "tiny")] {
@@ -533,7 +543,7 @@ pub fn all_params(tier: Tier) -> Vec<(Params, usize)> {
             if !thorough && scheme_name == "tiny" && lat != 31 {
                 continue;
             }
-            v.push((Params { streams: 2, flows: vec![f(0, true, Path::Direct, &[20, 90], 8192), f(1, true, Path::Forward, &[33], 7), f(0, false, Path::Forward, &[50, 8], 8192)], scheme, scheme_name, capacity: 16, read_menu: false, write_menu: false, latency_s: lat, interrupt: None }, if thorough { 1 } else { 0 }));
+            v.push((Params { streams: 2, flows: vec![f(0, true, Path::Direct, &[20, 90], 8192), f(1, true, Path::Forward, &[33], 7), f(0, false, Path::Forward, &[50, 8], 8192)], scheme, scheme_name, capacity: 16, read_menu: false, write_menu: false, latency_s: lat, interrupt: None, zero_instead: false }, if thorough { 1 } else { 0 }));
         }
     }
     // one transport call returns ErrorKind::Interrupted (a legal transient result) — at every write / flush call index
@@ -542,14 +552,19 @@ pub fn all_params(tier: Tier) -> Vec<(Params, usize)> {
         for s2c in [false, true] {
             for (flush, n) in [(false, 14usize), (true, 5)] {
                 for k in 0..n {
-                    v.push((Params { streams: 1, flows: vec![f(0, true, Path::Direct, &[20, 90], 8192), f(0, false, Path::Forward, &[50, 8], 8192)], scheme, scheme_name, capacity: 16, read_menu: false, write_menu: false, latency_s: 0, interrupt: Some((s2c, k, flush)) }, 0));
+                    for zero in [false, true] {
+                        if zero && flush {
+                            continue;
+                        }
+                        v.push((Params { streams: 1, flows: vec![f(0, true, Path::Direct, &[20, 90], 8192), f(0, false, Path::Forward, &[50, 8], 8192)], scheme, scheme_name, capacity: 16, read_menu: false, write_menu: false, latency_s: 0, interrupt: Some((s2c, k, flush)), zero_instead: zero }, 0));
+                    }
                 }
             }
         }
     }
     // a chunk larger than a frame with transport deviations
-    v.push((Params { streams: 1, flows: vec![f(0, true, Path::Direct, &[70000, 5], 8192)], scheme: STOP0, scheme_name: "stop0", capacity: usize::MAX, read_menu: true, write_menu: false, latency_s: 0, interrupt: None }, 1));
-    v.push((Params { streams: 1, flows: vec![f(0, false, Path::Forward, &[65536], 8192)], scheme: STOP0, scheme_name: "stop0", capacity: usize::MAX, read_menu: false, write_menu: true, latency_s: 0, interrupt: None }, 1));
+    v.push((Params { streams: 1, flows: vec![f(0, true, Path::Direct, &[70000, 5], 8192)], scheme: STOP0, scheme_name: "stop0", capacity: usize::MAX, read_menu: true, write_menu: false, latency_s: 0, interrupt: None, zero_instead: false }, 1));
+    v.push((Params { streams: 1, flows: vec![f(0, false, Path::Forward, &[65536], 8192)], scheme: STOP0, scheme_name: "stop0", capacity: usize::MAX, read_menu: false, write_menu: true, latency_s: 0, interrupt: None, zero_instead: false }, 1));
     v
 }
 
